@@ -221,12 +221,16 @@ P_send_signal_process(s, f) ==
                       ELSE \* Process.send_signal_child lists the worker's children again
                            IF s.k[fr.p].st = "reaped"
                            THEN Emit(SetL(s, f, Tail(fr.l)), Line("children", "", fr.p, 0, "nsp", ""))
-                           ELSE LET n == IF s.k[fr.p].st = "run" THEN Cardinality(LiveChildren(s, fr.p)) ELSE 0 IN
-                                Emit(Goto(s, f, "4"), Line("children", "", fr.p, n, "ok", ""))
+                           ELSE LET isrun == s.k[fr.p].st = "run"
+                                    n == IF isrun THEN Cardinality(LiveChildren(s, fr.p)) ELSE 0 IN
+                                \* whether the child is (still) a child is decided by THIS listing; the signal follows
+                                IF isrun /\ Head(fr.l) \in LiveChildren(s, fr.p)
+                                THEN Emit(Goto(s, f, "4"), Line("children", "", fr.p, n, "ok", ""))
+                                ELSE Emit(SetL(s, f, Tail(fr.l)), Line("children", "", fr.p, n, "ok", ""))
     [] fr.pc = "4" -> LET c == Head(fr.l) IN
-                      IF c \in LiveChildren(s, fr.p)
-                      THEN Emit(Goto(Deliver(s, c, fr.a, FALSE), f, "5"), Line("csignal", "", c, fr.a, "ok", ""))
-                      ELSE Goto(SetL(s, f, Tail(fr.l)), f, "3")
+                      IF s.k[c].st = "reaped"       \* gone since the listing: NoSuchProcess, swallowed
+                      THEN Emit(Goto(SetL(s, f, Tail(fr.l)), f, "3"), Line("csignal", "", c, fr.a, "nsp", ""))
+                      ELSE Emit(Goto(Deliver(s, c, fr.a, FALSE), f, "5"), Line("csignal", "", c, fr.a, "ok", ""))
     [] fr.pc = "5" -> Emit(Goto(SetL(s, f, Tail(fr.l)), f, "3"), Line("ev", WL(s, fr.w), Head(fr.l), 0, "", "kill"))
 
 \* ---- Popen.poll() on p (reaps); returns <<s', result, wstatus>>; "cached" = no system call
@@ -490,7 +494,9 @@ P_reload(s, f) ==
     [] fr.pc = "h" ->      \* process.send_signal(SIGHUP): no hook, no membership test
          IF fr.l = <<>> THEN Goto(s, f, "9")
          ELSE LET p == Head(fr.l) kr == KSignal(s, p, SIGHUP) IN
-              Emit(SetL(kr[1], f, Tail(fr.l)), Line("signal", "", p, SIGHUP, kr[2], ""))
+              IF kr[2] = "nsp"          \* a worker that is gone but still in the table: NoSuchProcess ends the reload
+              THEN Emit(Ret(s, f, 3), Line("signal", "", p, SIGHUP, "nsp", ""))
+              ELSE Emit(SetL(kr[1], f, Tail(fr.l)), Line("signal", "", p, SIGHUP, kr[2], ""))
     [] fr.pc = "q0" ->     \* active_processes = get_active_processes()
          IF fr.l = <<>> THEN Goto(s, f, "q1")
          ELSE LET p == Head(fr.l) st == KStatus(s, p) s1 == SetL(s, f, Tail(fr.l)) IN
@@ -633,7 +639,8 @@ OpTarget(s, fr) ==
     [] fr.nm = "reload" -> <<"_reload", fr.w, fr.a, fr.b>>
     [] fr.nm = "incr" -> <<"set_numprocesses", fr.w, s.ws[fr.w].np + fr.a, 0>>
     [] fr.nm = "decr" -> <<"set_numprocesses", fr.w, s.ws[fr.w].np - fr.a, 0>>
-    [] fr.nm = "do_action" -> <<"manage_processes", fr.w, 0, 0>>
+    [] fr.nm = "do_action" -> IF fr.a = 0 THEN <<"manage_processes", fr.w, 0, 0>>
+                              ELSE <<"_reload", fr.w, 1, 0>>        \* graceful, not sequential
     [] fr.nm = "a_start" -> <<"a_start", 0, 0, 0>>
     [] fr.nm = "a_stop" -> <<"a_stop", 0, 0, 0>>
     [] fr.nm = "a_restart" -> <<"a_quit", 0, 1, 0>>
@@ -641,7 +648,8 @@ OpTarget(s, fr) ==
     [] fr.nm = "quit" -> <<"a_quit", 0, 0, 0>>
 P_op(s, f) ==
   LET fr == s.fr[f] IN
-  CASE fr.pc = "0" -> LET t == OpTarget(s, fr) IN Call(s, f, "1", t[1], t[2], 0, t[3], t[4])
+  CASE fr.pc = "0" -> IF fr.nm = "do_action" /\ fr.a # 0 /\ s.ws[fr.w].st = "stopped" THEN Ret(s, f, 1)
+                      ELSE LET t == OpTarget(s, fr) IN Call(s, f, "1", t[1], t[2], 0, t[3], t[4])
     [] fr.pc = "1" -> Await(s, f, "2")
     [] fr.pc = "2" -> LET r == KidR(s, f) IN Ret(DropKids(s, f), f, r)
 
@@ -722,6 +730,18 @@ OpName(q) ==
     [] q.cmd = "restart" -> IF q.hasname THEN "restart" ELSE "a_restart"
     [] OTHER -> q.cmd
 GotoZ(s, f, v) == Goto(s, f, "z")
+\* the options of a `set` request as the model sees them: k \in {"np", "G" (polls), "W" (ticks), "ssig", "sch", "hup",
+\* "act1" (cmd, args, env, working_dir, shell, max_age ...: nothing the model holds, but a reload afterwards),
+\* "noop" (an option set_opt has no branch for)};  without the list: numprocesses = q.nb
+SetOpts(q) == IF q.opts # <<>> THEN q.opts ELSE <<[k |-> "np", v |-> q.nb]>>
+ApplyOpt(wr, o) ==
+  CASE o.k = "np" -> [wr EXCEPT !.np = IF o.v < 0 THEN 0 ELSE o.v]
+    [] o.k = "G" -> [wr EXCEPT !.G = o.v]
+    [] o.k = "W" -> [wr EXCEPT !.W = o.v]
+    [] o.k = "ssig" -> [wr EXCEPT !.ssig = o.v]
+    [] o.k = "sch" -> [wr EXCEPT !.sch = (o.v = 1)]
+    [] o.k = "hup" -> [wr EXCEPT !.hup = (o.v = 1)]
+    [] OTHER -> wr
 P_req(s, f) ==
   LET fr == s.fr[f] q == s.creq cid == fr.nm
       ws == ByName(s, q.lname)
@@ -799,21 +819,27 @@ P_req(s, f) ==
     [] fr.pc = "x" ->      \* exclusive commands: util.synchronized
          IF s.restarting \/ s.slot # "" THEN Reply(Goto(s, f, "z"), cid, q.mid, "error", 5)
          ELSE IF q.cmd = "set"
-         THEN \* Watcher.set_opt("numprocesses", v): synchronous, releases the slot when it returns
-              IF s.ws[i].sing /\ q.nb > 1 THEN Reply(Goto(s, f, "z"), cid, q.mid, "error", 5)
-              ELSE Emit(Goto([s EXCEPT !.slot = "watcher_set_opt", !.ws[i].np = IF q.nb < 0 THEN 0 ELSE q.nb],
-                             f, "x2"), Line("ev", WL(s, i), 0, 0, "", "updated"))
+         THEN Goto([SetL(s, f, SetOpts(q)) EXCEPT !.fr[f].b = 0], f, "xs")
          ELSE CallN([s EXCEPT !.slot = ExclSlot(q)], f, "x3", "op", i, 0,
                     IF q.cmd \in {"incr", "decr"} THEN q.nb ELSE IF q.graceful THEN 1 ELSE 0,
                     IF q.sequential THEN 1 ELSE 0, OpName(q))
-    [] fr.pc = "x2" -> CallN([s EXCEPT !.slot = "watcher_do_action"], f, "x3", "op", i, 0, 0, 0, "do_action")
+    [] fr.pc = "xs" ->     \* Set.execute: Watcher.set_opt(key, val) per option, in the order of the options object; each call
+                           \* is synchronized("watcher_set_opt") by itself and announces `updated`; fr.b = action so far
+         IF fr.l = <<>> THEN Goto(s, f, "x2")
+         ELSE LET o == Head(fr.l) IN
+              IF o.k = "np" /\ s.ws[i].sing /\ o.v > 1            \* ValueError, after the earlier options were applied (D7)
+              THEN Reply(Goto([s EXCEPT !.slot = ""], f, "z"), cid, q.mid, "error", 5)
+              ELSE Emit(Goto([SetL(s, f, Tail(fr.l)) EXCEPT !.slot = "watcher_set_opt", !.ws[i] = ApplyOpt(@, o),
+                                                           !.fr[f].b = IF o.k = "act1" THEN 1 ELSE fr.b], f, "xs"),
+                        Line("ev", WL(s, i), 0, 0, "", "updated"))
+    [] fr.pc = "x2" -> CallN([s EXCEPT !.slot = "watcher_do_action"], f, "x3", "op", i, 0, fr.b, 0, "do_action")
     [] fr.pc = "x3" ->
          LET kid == LastKid(s, f)
              s1 == SyncRelease(s, kid)
              det(ss) == [ss EXCEPT !.fr[kid].par = 0, !.fr[f].kids = <<>>] IN
-         IF s.fr[kid].done /\ s.fr[kid].r = 3
-         THEN Reply(Goto(DropKids(s1, f), f, "z"), cid, q.mid, "error", 5)       \* raised synchronously
-         ELSE IF q.waiting
+         \* (an operation is a coroutine: what it raises, even before its first yield, is in its future; the
+         \*  controller learns of it in the done-callback, and only a waiting client is told: errno 6)
+         IF q.waiting
          THEN IF s.fr[kid].done
               THEN GotoZ(Enq([s1 EXCEPT !.fr[f].kids = <<>>],
                            [kind |-> "reply", f |-> kid, cid |-> cid, mid |-> q.mid]), f, 1)
@@ -855,7 +881,8 @@ P_boot(s, f) ==
 QuitReq == [cmd |-> "quit", name |-> "", lname |-> "", hasname |-> FALSE, mid |-> "", waiting |-> FALSE,
             cast |-> FALSE, pid |-> -1, signum |-> -1, children |-> FALSE, recursive |-> FALSE, childpid |-> -1,
             nb |-> 1, G |-> -1, nostop |-> FALSE, graceful |-> TRUE, sequential |-> FALSE, raw |-> FALSE,
-            start |-> FALSE, addnp |-> 1, addG |-> 1, addW |-> 0, addsing |-> FALSE, nopts |-> 1, pattern |-> FALSE]
+            start |-> FALSE, addnp |-> 1, addG |-> 1, addW |-> 0, addsing |-> FALSE, nopts |-> 1, pattern |-> FALSE,
+            opts |-> <<>>]
 
 Dispatch(s, f, ob) ==
   LET fn == s.fr[f].fn IN
@@ -922,10 +949,10 @@ RunCb(s) ==
   CASE cb.kind = "resume" -> [s0 EXCEPT !.cur = <<cb.f>>]
     [] cb.kind = "release" -> LET s1 == [s0 EXCEPT !.slot = ""] IN
                               IF ObsCore(s1) # s1.lastobs THEN [s1 EXCEPT !.cbpend = TRUE] ELSE s1
-    [] cb.kind = "reply" ->   \* _dispatch_callback_future: an operation that failed is never answered (D5)
+    [] cb.kind = "reply" ->   \* _dispatch_callback_future (send_resp): ok, or "server error" for an operation that failed
          LET failed == s0.fr[cb.f].r = 3
              s1 == Free(s0, {cb.f}) IN
-         IF failed THEN s1
+         IF failed THEN [Reply(s1, cb.cid, cb.mid, "error", 6) EXCEPT !.lastobs = ObsCore(s1)]
          ELSE [Reply(s1, cb.cid, cb.mid, "ok", 0) EXCEPT !.lastobs = ObsCore(s1)]
     [] cb.kind = "dsig" ->    \* SysHandler: controller.dispatch((None, make_json("quit")))
          IF ~Dev_QuitRefusedWhenBusy /\ s0.restarting
